@@ -93,7 +93,7 @@ def run_model(graph_file, queries, workdir):
             out[w[1]] = cur
         elif w[0] == 'PARSE':
             cur['parse'] = w[1]
-        elif w[0] in ('FROM', 'SELECT', 'PREDS', 'COND', 'INFRAG', 'SPECSAME', 'LEX'):
+        elif w[0] in ('FROM', 'SELECT', 'PREDS', 'COND', 'INFRAG', 'SPECSAME', 'SPECDEF', 'LEX'):
             cur[w[0].lower()] = w[1] if len(w) > 1 else ''
         elif w[0] == 'SPECTUPLE':
             ents = []
